@@ -69,7 +69,9 @@ Reaction(line) ==
       issues  |-> {CallRec(line.out[k]) : k \in Items(line, "issue")},
       drops   |-> {[c |-> calls[line.out[k].call].c, cst |-> calls[line.out[k].call].st]
                      : k \in {j \in Items(line, "drop") : line.out[j].call \in DOMAIN calls}},
-      npanic  |-> Cardinality(Items(line, "panic"))]
+      npanic  |-> Cardinality(Items(line, "panic")),
+      rets    |-> {[fn |-> line.out[k].fn, hash |-> line.out[k].hash, r |-> line.out[k].r, key |-> line.out[k].key]
+                     : k \in Items(line, "ret")}]
 
 \* the static HTLC record of an `htlc` line (class per Classify)
 HtlcRec(line) ==
@@ -102,16 +104,6 @@ C12bytes(line) == \A k \in Items(line, "answer") :
 C06codes(line) == \A k \in Items(line, "answer") :
    line.out[k].r = "fail" => line.out[k].code \in {"node", "tramp", "fee"}
 
-\* C15 / C16 on `ret` items (direct calls of wait_payment / pay)
-C15(line) == \A k \in Items(line, "ret") :
-   LET o == line.out[k] IN
-   o.fn = "wp" => /\ (o.r = "none" => ~LivePost(o.hash))
-                  /\ (o.r = "pre" => o.key = o.hash /\ CompletedPost(o.hash))
-C16(line) == \A k \in Items(line, "ret") :
-   LET o == line.out[k] IN
-   o.fn = "pay" => /\ (o.r = "ok" => o.key = o.hash /\ CompletedPost(o.hash))
-                   /\ (o.r = "err" => ~LivePost(o.hash) /\ pay'[o.hash].run = 0)
-
 \* every pay request carries the configured retry time and nothing unexpected
 PayShape(line) == \A c \in {CallRec(line.out[k]) : k \in Items(line, "issue")} :
    c.kind = "pay" => c.retry = cfg.retry /\ ~c.other /\ (cfg.xpay => ~c.label /\ ~c.risk)
@@ -121,7 +113,7 @@ Judged(line) ==
   [C01 |-> C01, C02 |-> C02, C03 |-> C03, C04 |-> C04, C05 |-> C05,
    C06 |-> C06once /\ C06nopanic /\ C06wellformed /\ C06codes(line),
    C07 |-> C07, C08 |-> C08, C11 |-> C11, C12 |-> C12 /\ C12bytes(line),
-   C13 |-> C13, C10 |-> C10hint, C15 |-> C15(line), C16 |-> C16(line), PAYSHAPE |-> PayShape(line)]
+   C13 |-> C13, C10 |-> C10hint, C15 |-> C15, C16 |-> C16, PAYSHAPE |-> PayShape(line)]
 
 Violated(line) == LET j == Judged(line) IN {p \in DOMAIN j : ~j[p]}
 
@@ -221,7 +213,7 @@ DoCrash ==
 \* direct calls of the provider (Engine A-prov)
 DoCall ==
   /\ Line.ev \in {"wpcall", "paycall"}
-  /\ Step(Line, [t |-> "call"], Reaction(Line))
+  /\ Step(Line, [t |-> "call", fn |-> IF Line.ev = "wpcall" THEN "wp" ELSE "pay", hash |-> Line.hash], Reaction(Line))
 
 DoDrained ==
   /\ Line.ev = "drained"
